@@ -206,7 +206,10 @@ def _cmp_val(a, b, stats, path):
             if fin.any():
                 scale = max(np.abs(x[fin]).max(), np.abs(y[fin]).max())
                 diff = np.abs(x[fin] - y[fin]).max()
-                if diff > 1e-12 * scale:
+                # relative to the largest entry, with an absolute floor: an array that is rounding noise
+                # throughout (an overlap that vanishes by symmetry, computed as 1e-17) legitimately differs
+                # in every digit between two correct evaluations that sum in another order
+                if diff > max(1e-12 * scale, 1e-13):
                     raise Mismatch(f"{path}: max|diff|={diff:.3e} scale={scale:.3e}")
             stats["close_not_bitwise"] = stats.get("close_not_bitwise", 0) + 1
             return
